@@ -1,0 +1,103 @@
+// Copyright 2020-2025 Buf Technologies, Inc.
+//
+// Licensed under the Apache License, Version 2.0 (the "License");
+// you may not use this file except in compliance with the License.
+// You may obtain a copy of the License at
+//
+//      http://www.apache.org/licenses/LICENSE-2.0
+//
+// Unless required by applicable law or agreed to in writing, software
+// distributed under the License is distributed on an "AS IS" BASIS,
+// WITHOUT WARRANTIES OR CONDITIONS OF ANY KIND, either express or implied.
+// See the License for the specific language governing permissions and
+// limitations under the License.
+
+//go:build verif
+
+package buftarget
+
+// Contracts for the gocv verifier (see /verif/DESIGN.md). Comment-only. (author ca-A2)
+// Lemmas a2_*: /verif/specs/C10_workspace.spec; ancOrSelf, validRel, dirOf: paths.spec; e_relTo: C16.spec.
+//
+// C10: the search for the workspace that controls an input directory (bucket_targeting.go, terminate.go,
+// controlling_workspace.go).
+//
+//@ func newControllingWorkspace(path, bufWorkYAMLFile, bufYAMLFile) (r)
+//@   property C10
+//@   ensures r != nil && !old(allocated(r)) && typeOf(r) == typeId(*controllingWorkspace)
+//@   ensures as-given: cast(*controllingWorkspace, r).path == path && cast(*controllingWorkspace, r).bufWorkYAMLFile == bufWorkYAMLFile && cast(*controllingWorkspace, r).bufYAMLFile == bufYAMLFile
+//@ func (c *controllingWorkspace) Path() (r)
+//@   property C10
+//@   ensures r == c.path
+//@ func (c *controllingWorkspace) BufYAMLFile() (r)
+//@   property C10
+//@   ensures r == c.bufYAMLFile
+//@ func (c *controllingWorkspace) BufWorkYAMLFile() (r)
+//@   property C10
+//@   ensures r == c.bufWorkYAMLFile
+//
+// mapControllingWorkspaceAndPath: walk up from the (normalized) input directory, asking the terminate function at the
+// input directory first, then at its parent, ... up to the bucket root. The search stops at the FIRST directory where
+// the terminate function answers (no directory between the input and that one answered), the input is re-based onto
+// that directory; a terminate error aborts; if no directory answers there is no controlling workspace and the input
+// path is returned unchanged. Without a terminate function nothing is searched.
+//@ func mapControllingWorkspaceAndPath(ctx, logger, bucket, path, terminateFunc) (r, subDirPath, err)
+//@   property C10
+//@   callback pure terminateFunc
+//@   use a2_walk-up-step, a2_parent-above, a2_rel-self, a2_dot-contains-all, i_anc-refl, a2_anc-antisym
+//@   ensures invalid-input-rejected: second(normalpath.NormalizeAndValidate(path)) != nil ==> err != nil && r == nil
+//@   ensures no-terminate-func-no-search: terminateFunc == nil && second(normalpath.NormalizeAndValidate(path)) == nil ==> r == nil && err == nil && subDirPath == first(normalpath.NormalizeAndValidate(path))
+//@   ensures found-at-an-ancestor: err == nil && r != nil ==> (exists d string :: validRel(d) && ancOrSelf(d, first(normalpath.NormalizeAndValidate(path))) && r == first(terminateFunc(ctx, bucket, d, first(normalpath.NormalizeAndValidate(path)))) && second(terminateFunc(ctx, bucket, d, first(normalpath.NormalizeAndValidate(path)))) == nil && subDirPath == e_relTo(d, first(normalpath.NormalizeAndValidate(path))) && (forall x string :: validRel(x) && ancOrSelf(x, first(normalpath.NormalizeAndValidate(path))) && ancOrSelf(d, x) && x != d ==> first(terminateFunc(ctx, bucket, x, first(normalpath.NormalizeAndValidate(path)))) == nil))
+//@   ensures input-directory-asked-first: err == nil && terminateFunc != nil && second(normalpath.NormalizeAndValidate(path)) == nil && second(terminateFunc(ctx, bucket, first(normalpath.NormalizeAndValidate(path)), first(normalpath.NormalizeAndValidate(path)))) == nil && first(terminateFunc(ctx, bucket, first(normalpath.NormalizeAndValidate(path)), first(normalpath.NormalizeAndValidate(path)))) != nil ==> r == first(terminateFunc(ctx, bucket, first(normalpath.NormalizeAndValidate(path)), first(normalpath.NormalizeAndValidate(path)))) && subDirPath == "."
+//@   ensures none-found-means-none-answers: err == nil && r == nil && terminateFunc != nil ==> subDirPath == first(normalpath.NormalizeAndValidate(path)) && (forall x string :: validRel(x) && ancOrSelf(x, first(normalpath.NormalizeAndValidate(path))) ==> first(terminateFunc(ctx, bucket, x, first(normalpath.NormalizeAndValidate(path)))) == nil)
+//@   loop 0 invariant on-the-chain: validRel(path) && path == first(normalpath.NormalizeAndValidate($entry(path))) && validRel(curDirPath) && ancOrSelf(curDirPath, path)
+//@   loop 0 invariant nothing-below-answered: forall x string :: validRel(x) && ancOrSelf(x, path) && ancOrSelf(curDirPath, x) && x != curDirPath ==> first(terminateFunc(ctx, bucket, x, path)) == nil && second(terminateFunc(ctx, bucket, x, path)) == nil
+//
+// terminateAtControllingWorkspace: is the directory `prefix` (the input or one of its ancestors) a workspace that
+// CONTROLS the input?
+//  * a v2 buf.yaml at prefix controls the input iff the input is prefix itself, or lies in (or is) one of its module
+//    directories, or contains one of them (v2 only: an input may be a subset of the modules);
+//  * a buf.work.yaml at prefix controls the input iff the input is prefix itself or lies in (or is) one of its
+//    directories;
+//  * both files in one directory is an error; a v1 buf.yaml never controls anything here.
+// A workspace file higher up that does NOT contain the input does not terminate the search.
+//@ func terminateAtControllingWorkspace(ctx, bucket, prefix, originalInputPath) (r, err)
+//@   property C10
+//@   modifies ghost.fail, ghost.sinkPaths, ghost.sinkBuckets
+//@   use a2_module-dir-valid, a2_work-dirs-valid
+//@   requires validRel(prefix) && validRel(originalInputPath) && ancOrSelf(prefix, originalInputPath)
+//@   ensures failure-gives-nil: err != nil ==> r == nil
+//@   ensures one-kind-for-this-directory: r != nil ==> typeOf(r) == typeId(*controllingWorkspace) && cast(*controllingWorkspace, r).path == prefix && ((cast(*controllingWorkspace, r).bufYAMLFile != nil) != (cast(*controllingWorkspace, r).bufWorkYAMLFile != nil))
+//@   ensures v2-workspace-contains-input: r != nil && cast(*controllingWorkspace, r).bufYAMLFile != nil ==> cast(*controllingWorkspace, r).bufYAMLFile.FileVersion() == bufconfig.FileVersionV2 && (prefix == originalInputPath || (exists j int :: 0 <= j && j < len(cast(*controllingWorkspace, r).bufYAMLFile.ModuleConfigs()) && (ancOrSelf(cast(*controllingWorkspace, r).bufYAMLFile.ModuleConfigs()[j].DirPath(), e_relTo(prefix, originalInputPath)) || ancOrSelf(e_relTo(prefix, originalInputPath), cast(*controllingWorkspace, r).bufYAMLFile.ModuleConfigs()[j].DirPath()))))
+//@   ensures v1-workspace-contains-input: r != nil && cast(*controllingWorkspace, r).bufWorkYAMLFile != nil ==> prefix == originalInputPath || (exists j int :: 0 <= j && j < len(cast(*controllingWorkspace, r).bufWorkYAMLFile.DirPaths()) && ancOrSelf(cast(*controllingWorkspace, r).bufWorkYAMLFile.DirPaths()[j], e_relTo(prefix, originalInputPath)))
+//@   loop 0 invariant no-module-related-so-far: forall j int :: 0 <= j && j < $i ==> !ancOrSelf(bufYAMLFile.ModuleConfigs()[j].DirPath(), relInputPath) && !ancOrSelf(relInputPath, bufYAMLFile.ModuleConfigs()[j].DirPath())
+//@   loop 1 invariant no-directory-contains-so-far: forall j int :: 0 <= j && j < $i ==> !ancOrSelf(bufWorkYAMLFile.DirPaths()[j], relInputPath)
+//@   assert before "return nil, fmt.Errorf(\"cannot have a buf.work.yaml and buf.yaml" both-files: bufWorkYAMLExists && bufYAMLExists
+//@   assert before "return nil, nil" v2-file-here-does-not-contain-input: !(bufYAMLExists && bufYAMLFile.FileVersion() == bufconfig.FileVersionV2 && (prefix == originalInputPath || (exists j int :: 0 <= j && j < len(bufYAMLFile.ModuleConfigs()) && (ancOrSelf(bufYAMLFile.ModuleConfigs()[j].DirPath(), relInputPath) || ancOrSelf(relInputPath, bufYAMLFile.ModuleConfigs()[j].DirPath())))))
+//@   assert before "return nil, nil" work-file-here-does-not-contain-input: !(bufWorkYAMLExists && (prefix == originalInputPath || (exists j int :: 0 <= j && j < len(bufWorkYAMLFile.DirPaths()) && ancOrSelf(bufWorkYAMLFile.DirPaths()[j], relInputPath))))
+//@   assert before "return nil, nil" rebased-input: relInputPath == e_relTo(prefix, originalInputPath)
+//
+// terminateAtV1Module: a v1 buf.yaml at prefix, and nothing else, answers.
+//@ func terminateAtV1Module(ctx, bucket, prefix, originalInputPath) (r, err)
+//@   property C10
+//@   modifies ghost.fail, ghost.sinkPaths, ghost.sinkBuckets
+//@   ensures failure-gives-nil: err != nil ==> r == nil
+//@   ensures v1-module-here: r != nil ==> typeOf(r) == typeId(*controllingWorkspace) && cast(*controllingWorkspace, r).path == prefix && cast(*controllingWorkspace, r).bufWorkYAMLFile == nil && cast(*controllingWorkspace, r).bufYAMLFile != nil && cast(*controllingWorkspace, r).bufYAMLFile.FileVersion() == bufconfig.FileVersionV1
+//
+// newBucketTargeting (re-bases the --path / --exclude-path values onto the workspace directory with normalpath.Rel) is
+// not under contract: it writes the re-based values into the caller's slices in place (`mappedTargetPaths :=
+// targetPaths; mappedTargetPaths[i] = ...`), engine: "out-of-fragment: element write through a slice that is not
+// locally created (aliasing not modelled)". Its parts are: mapControllingWorkspaceAndPath (above), normalpath.Rel (C16).
+// The accessors return what the constructor stored.
+//@ func (b *bucketTargeting) ControllingWorkspace() (r)
+//@   property C10
+//@   ensures r == b.controllingWorkspace
+//@ func (b *bucketTargeting) SubDirPath() (r)
+//@   property C10
+//@   ensures r == b.subDirPath
+//@ func (b *bucketTargeting) TargetPaths() (r)
+//@   property C10
+//@   ensures r == b.targetPaths
+//@ func (b *bucketTargeting) TargetExcludePaths() (r)
+//@   property C10
+//@   ensures r == b.targetExcludePaths
